@@ -905,7 +905,7 @@ func lexHeaderParam(l *lexer) stateFn {
 
 	// Consume the ':'
 	if l.next() != ':' {
-		return l.errorf("expected {@param name: ...}")
+		return l.errorfAt(l.tagStart, "expected {@param name: ...}")
 	}
 	l.emit(itemColon)
 	skipSpace(l)
@@ -961,7 +961,7 @@ func lexLiteral(l *lexer) stateFn {
 		ch = l.next()
 	}
 	if ch != '}' {
-		return l.errorf("expected closing tag after {literal..")
+		return l.errorfAt(l.tagStart, "expected closing tag after {literal..")
 	}
 	if l.doubleDelim && l.next() != '}' {
 		return l.errorfAt(l.start, "expected double closing braces in tag")
